@@ -25,8 +25,8 @@ SPEC = dict(
           "(runtime error, raise through a called function) at every position of if/elif chains, in condition-loop guards and for-in "
           "iterables, inside and outside try; if and list/map loop families; random nestings of "
           "if/loop/try/function up to depth 4 (3000 quick, 100000 thorough). Compared: ordered marker trace, final value, "
-          "error type, class (runtime error / raised / return signal), raised detail and data, returned value (no message text, "
-          "no position); inexact fractional range steps are generated (elements of repeated float addition). Non-trivial = the model's trace has at least two entries."),
+          "error type, class (runtime error / raised / return signal), line and column, raised detail and data (no message text); the value of a "
+          "return is observed through the value of the call; inexact fractional range steps are generated (elements of repeated float addition). Non-trivial = the model's trace has at least two entries."),
     exhaustive="exit kind x except-clause set x otherwise x finally x context, and the range/if/list/map families",
     trusted_base=[
         "the tree evaluated by the model is the one the real parser built (serialised by the harness); parser and lexer are not part of C04",
@@ -34,7 +34,19 @@ SPEC = dict(
         "builtins) matches rt_*.go is established by the differential run only",
         "IEEE-754: float64 order, equality and addition are exact on integers below 2^53 (NumEmbOn floatOps on that set is assumed, not proved)",
     ],
-    assumptions=["programs with unbounded recursion or loops are outside (fuel), as the property allows"],
+    assumptions=[
+        "programs with unbounded recursion or loops are outside (fuel), as the property allows",
+        "READING (not constrained by the property text): an abnormal exit OF the finally block itself (raise / break / continue / return "
+        "inside finally) is dropped by the deferred evaluation; Spec.afterFin follows the code there",
+        "READING: the number 0 is truthy (`if 0 {}` / `for 0 {}` run their block); `for [a] in [[1],[2]]` binds a = [1] (one variable is never destructured)",
+        "READING: a break raised while the GUARD of a condition loop is evaluated ends that loop, a continue raised there goes to the enclosing loop",
+        "READING: a loop body that WRITES the list it iterates may be seen live (the code) or not (a copy): both accepted on such programs (spec=)",
+        "READING of inclusive ranges: elements by repeated float64 addition; inexact fractional steps are compared rounded to three decimals",
+        "a generated program that does not parse is a disagreement (UNEXPECTED-NOPARSE) unless its family is declared may-not-parse; the tree of the "
+        "real parser is additionally compared with the tree C07's parser model builds from the same text (TREE-MISMATCH)",
+        "positions (line, column) of the final error are compared; the error object's line/pos entries are Go ints and are not modelled",
+        "not modelled: an iterator signal crossing a list literal (Go hands the partially built list on); bytesToString is injective only on valid UTF-8 type names",
+    ],
     decode=decode,
 )
 
@@ -58,7 +70,14 @@ META = dict(
                 "range step = forEach over rangeVals, on ANY carrier incl. Float), runBuiltin_range_next (the call's state machine "
                 "does that step) and the Int theorems (inclusive end, both directions, wrong direction empty, closed forms) which "
                 "rangeVals_emb transfers to any carrier on which the integers in play embed faithfully."),
-    level_note=("READING of 'inclusive range': the elements of range(a, b, s) are a, a+s, a+2s, ... by repeated addition in float64 "
+    level_note=("Unfolding equations used as lemmas (by construction, no content of their own): loop_guard, loop_iter_step, tryCore_eq, dispatch_cons, "
+                "ifChain_cons, return_innermost_function, raise_fields(_seen_by_handler), the *_example theorems. Real content: the refinement, "
+                "break/continue-innermost, loop_list, if_first_true, first-matching/unhandled (vs Decline), finally_exactly_once (vs afterFinally), "
+                "typed-clause-decides, range closed forms, sortBy/loop_map_sorted, statements/program composition. "
+                "KNOWN FINDING iterator-returned-by-function: `for i in r()` with r returning range(...) calls r every round, binds nil and never ends "
+                "by itself (bounded directed cases carry spec=; kf= once the id is listed). Anchor 4 (ndTry / ndOtherwiseFinally) is not proved here: owner "
+                "C07; here only the cross-check payload tree = parser-model tree on every C04 program and the >=3-types / clause-order families. "
+                "READING of 'inclusive range': the elements of range(a, b, s) are a, a+s, a+2s, ... by repeated addition in float64 "
                 "while not beyond b; b itself is delivered iff the accumulation hits it exactly. For integer-valued arguments below "
                 "2^53 that is the mathematical inclusive range (IEEE-754 exactness is an assumption here: Float is opaque to the Lean "
                 "kernel, NumEmbOn floatOps is not proved); for inexact fractional steps the end can be missed "
